@@ -782,9 +782,18 @@ def run(ctx):
     nx, xok, xlog = common.coq_crosscheck("C16", mcases, outs, ctx.rng, sample=16 if quick else 60)
     if not xok:
         ctx.violation("extraction cross-check failed", {"log": xlog}, no_input=True)
+    # ==== table_build_correspondence under other hash seeds ================================
+    # the Gallina model of create_table is a function of the ORDERED grammar
+    # (C16_table_build_is_a_function); the impl, run in processes with other PYTHONHASHSEEDs, must
+    # still build exactly the model's table (harness/lib/tabcorr.py)
+    from lib import tabcorr
+    tab_seeds = tabcorr.run_seeds(ctx, seeds=tuple(rng.sample(range(1, 4294967295), 2 if quick else 6)),
+                                  n_jobs=120 if quick else 1200)
+    # ==== end ================================================================================
     return {
         "evaluations": evaluations,
         "distinct_nontrivial": len(distinct),
+        "table_build_correspondence_hash_seeds": tab_seeds,
         "rule": "curated/classic grammars, malformed grammar texts, seeded random small and unary-nullable grammars, and "
                 "C16 families with wide lookahead sets and hash-reordered terminal names (operator tables with "
                 "priorities/associativity/nops, statement lists with nullable tails, random grammars over 5-12 terminals, "
